@@ -32,9 +32,12 @@ def main():
         # comes from the tree named by VERIF_REPO (default /repo) and PYTHONHASHSEED is pinned
         if os.environ.get('VERIF_ENV_READY') != '1':
             env = core.child_env({'VERIF_ENV_READY': '1'})
-            if a.replay:
-                import uuid
-                env['VERIF_TAG'] = uuid.uuid4().hex
+            import uuid
+            import tempfile
+            env['VERIF_TAG'] = uuid.uuid4().hex
+            # the parent re-runs single cases when it shrinks / replays: give it an injection directory too
+            env['VERIF_INJECT_DIR'] = tempfile.mkdtemp(prefix='verif-inject-parent-')
+            env['VERIF_INJECT_SPIN'] = '0.6'
             os.execve(sys.executable, [sys.executable] + sys.argv, env)
 
     sys.path.insert(0, core.REPO)
@@ -69,6 +72,10 @@ def main():
 
 if __name__ == '__main__':
     code = main()
+    d = os.environ.get('VERIF_INJECT_DIR', '')
+    if 'verif-inject-parent-' in d:
+        import shutil
+        shutil.rmtree(d, ignore_errors=True)
     sys.stdout.flush()
     sys.stderr.flush()
     os._exit(code)
